@@ -7,22 +7,87 @@ Local Open Scope N_scope.
 Lemma has_app : forall b s x, has (b ++ s) x = has b x || has s x.
 Proof. intros b s x. unfold has, memb. apply existsb_app. Qed.
 
-(* pull_complete: after the chunks of the missing closure have been copied, in any batch order and
-   together with anything else, everything reachable from the heads is at the sink *)
-Theorem pull_complete : forall u sink heads need batches,
-  missing u sink heads = Some need ->
-  incl need (concat batches) ->
-  forall x, reach u heads x -> has (concat batches ++ sink) x = true.
+Lemma has_In : forall s x, has s x = true <-> In x s.
+Proof. intros s x. unfold has. apply memb_In. Qed.
+
+Lemma refs_prune : forall u sink x, refs (prune u sink) x = filter (absent sink) (refs u x).
 Proof.
-  intros u sink heads need batches Hm Hin x Hr. unfold missing in Hm.
-  destruct (mark u heads) as [r|] eqn:E; [|discriminate Hm]. injection Hm as <-.
-  pose proof (mark_complete u heads r E x Hr) as Hx.
-  rewrite has_app. destruct (has sink x) eqn:Hs; [apply orb_true_r|].
-  apply orb_true_iff. left. apply memb_In. apply Hin. apply filter_In. split; [exact Hx|]. rewrite Hs. reflexivity.
+  induction u as [|[k rs] u' IH]; intros sink x; [reflexivity|].
+  unfold prune in *. cbn [map fst snd refs]. destruct (k =? x); [reflexivity | apply IH].
 Qed.
 
-Lemma missing_total : forall u sink heads, exists need, missing u sink heads = Some need.
-Proof. intros u sink heads. unfold missing. destruct (fuel_enough u heads) as [r H]. rewrite H. eexists. reflexivity. Qed.
+(* ---- the HasMany-pruned walk brings everything, PROVIDED the sink is closed ---- *)
+Theorem pull_complete : forall u sink heads need,
+  sink_closed u sink ->
+  pull_need u sink heads = Some need ->
+  forall x, reach u heads x -> has (need ++ sink) x = true.
+Proof.
+  intros u sink heads need Hc Hn x Hr. unfold pull_need in Hn.
+  induction Hr as [x Hx | x y Hr IH Hy]; rewrite has_app in *.
+  - destruct (has sink x) eqn:E; [apply orb_true_r|]. apply orb_true_iff. left. apply has_In.
+    apply (mark_contains_start _ _ _ Hn). apply filter_In. split; [exact Hx|]. unfold absent. rewrite E. reflexivity.
+  - destruct (has sink y) eqn:Ey; [apply orb_true_r|]. apply orb_true_iff. left.
+    apply orb_true_iff in IH. destruct IH as [IH|IH].
+    + apply has_In. apply has_In in IH. apply (mark_closed_refs _ _ _ Hn x y IH).
+      rewrite refs_prune. apply filter_In. split; [exact Hy|]. unfold absent. rewrite Ey. reflexivity.
+    + rewrite (Hc x y IH Hy) in Ey. discriminate Ey.
+Qed.
+
+(* ... in any batch order and together with anything else that is uploaded *)
+Corollary pull_complete_batches : forall u sink heads need batches,
+  sink_closed u sink -> pull_need u sink heads = Some need -> incl need (concat batches) ->
+  forall x, reach u heads x -> has (concat batches ++ sink) x = true.
+Proof.
+  intros u sink heads need batches Hc Hn Hi x Hr.
+  pose proof (pull_complete u sink heads need Hc Hn x Hr) as H. rewrite has_app in *.
+  apply orb_true_iff in H. apply orb_true_iff. destruct H as [H|H]; [left | right; exact H].
+  apply has_In. apply Hi. apply has_In. exact H.
+Qed.
+
+Lemma pull_need_total : forall u sink heads, exists need, pull_need u sink heads = Some need.
+Proof. intros u sink heads. unfold pull_need. apply fuel_enough. Qed.
+
+(* the pruned walk fetches nothing superfluous: only chunks reachable from the heads that the sink lacks *)
+Lemma reach_prune : forall u sink heads x,
+  reach (prune u sink) (filter (absent sink) heads) x -> reach u heads x /\ absent sink x = true.
+Proof.
+  intros u sink heads x H. induction H as [x Hx | x y Hr IH Hy].
+  - apply filter_In in Hx. destruct Hx as [Hx Ha]. split; [apply reach_start; exact Hx | exact Ha].
+  - rewrite refs_prune in Hy. apply filter_In in Hy. destruct Hy as [Hy Ha]. destruct IH as [IH _].
+    split; [apply reach_step with (x := x); assumption | exact Ha].
+Qed.
+
+Theorem pull_need_minimal : forall u sink heads need,
+  pull_need u sink heads = Some need ->
+  forall x, In x need -> reach u heads x /\ has sink x = false.
+Proof.
+  intros u sink heads need Hn x Hx. unfold pull_need in Hn.
+  destruct (reach_prune u sink heads x (mark_sound _ _ _ Hn x Hx)) as [Hr Ha].
+  split; [exact Hr|]. unfold absent in Ha. apply negb_true_iff in Ha. exact Ha.
+Qed.
+
+(* the hypothesis cannot be dropped: with a sink that is not closed the pruned walk stops too early *)
+Example pruning_needs_closed_sink :
+  let u := [(1, [2]); (2, [])] in
+  pull_need u [1] [1] = Some [] /\ reach u [1] 2 /\ has ([] ++ [1]) 2 = false.
+Proof.
+  split; [vm_compute; reflexivity|]. split; [|reflexivity].
+  apply reach_step with (x := 1); [apply reach_start; left; reflexivity | left; reflexivity].
+Qed.
+
+(* the files produced by a pull into a closed sink pass the reference check when they are added *)
+Theorem pull_add_accepted : forall u sink heads need,
+  sink_closed u sink -> pull_need u sink heads = Some need -> add_ok u sink need = true.
+Proof.
+  intros u sink heads need Hc Hn. unfold add_ok. rewrite forallb_forall. intros h Hh.
+  rewrite forallb_forall. intros r Hr. rewrite has_app.
+  destruct (has sink r) eqn:E; [apply orb_true_r|]. apply orb_true_iff. left. apply has_In.
+  unfold pull_need in Hn. apply (mark_closed_refs _ _ _ Hn h r Hh).
+  rewrite refs_prune. apply filter_In. split; [exact Hr|]. unfold absent. rewrite E. reflexivity.
+Qed.
+
+(* ---- refs after data ---- *)
+Definition Inv (u : graph) (d : remote) : Prop := sink_closed u (r_store d) /\ refs_present d.
 
 Lemma get_set_ref : forall rm n a k b, In (k, b) (set_ref rm n a) -> (k = n /\ b = a) \/ In (k, b) rm.
 Proof.
@@ -36,28 +101,48 @@ Proof.
       destruct (IH n a k b H) as [H1|H1]; [left; exact H1 | right; right; exact H1].
 Qed.
 
-Lemma step_backed : forall u d t, ref_backed u d -> ref_backed u (tstep_run u d t).
+Lemma step_inv : forall u d t, Inv u d -> Inv u (tstep_run u d t).
 Proof.
-  intros u d t Hb. destruct t as [batch|n expected new force]; cbn [tstep_run].
-  - intros k a Hin x Hr. cbn [r_store r_refs] in *. rewrite has_app. rewrite (Hb k a Hin x Hr). apply orb_true_r.
-  - destruct (opt_eqb (get_ref (r_refs d) n) expected && data_complete u (r_store d) new
-              && (force || is_ff u (get_ref (r_refs d) n) new)) eqn:E; [|exact Hb].
-    apply andb_prop in E. destruct E as [E _]. apply andb_prop in E. destruct E as [_ Ed].
-    intros k a Hin x Hr. cbn [r_store r_refs] in *.
-    apply get_set_ref in Hin. destruct Hin as [[_ ->]|Hin]; [|exact (Hb k a Hin x Hr)].
-    unfold data_complete in Ed. destruct (mark u [new]) as [r|] eqn:Em; [|discriminate Ed].
-    rewrite forallb_forall in Ed. apply Ed. apply (mark_complete u [new] r Em x Hr).
+  intros u d t [Hc Hp]. destruct t as [batch|n expected new force]; cbn [tstep_run].
+  - destruct (add_ok u (r_store d) batch) eqn:E; [|split; assumption].
+    split; unfold sink_closed, refs_present; cbn [r_store r_refs].
+    + intros x y Hx Hy. rewrite has_app in Hx. destruct (has batch x) eqn:Eb.
+      * unfold add_ok in E. rewrite forallb_forall in E. apply has_In in Eb.
+        specialize (E x Eb). rewrite forallb_forall in E. apply E. exact Hy.
+      * cbn [orb] in Hx. rewrite has_app. rewrite (Hc x y Hx Hy). apply orb_true_r.
+    + intros k a Hin. rewrite has_app. rewrite (Hp k a Hin). apply orb_true_r.
+  - destruct (set_ok u d n expected new force) eqn:E; [|split; assumption].
+    split; unfold refs_present; cbn [r_store r_refs]; [exact Hc|].
+    intros k a Hin. apply get_set_ref in Hin. destruct Hin as [[_ ->]|Hin]; [|exact (Hp k a Hin)].
+    unfold set_ok in E. apply andb_prop in E. destruct E as [E _]. apply andb_prop in E. exact (proj2 E).
 Qed.
 
-(* ref_after_data: in every prefix of every interleaving of transfer steps (= at every interruption
-   point), every ref of the destination is backed by its complete data *)
-Theorem ref_after_data : forall u ts d,
-  ref_backed u d -> forall k, ref_backed u (transfer u d (firstn k ts)).
+Lemma closed_reach : forall u s a, sink_closed u s -> has s a = true -> forall x, reach u [a] x -> has s x = true.
 Proof.
-  intros u ts d Hb k. unfold transfer. generalize dependent d. generalize dependent k.
-  induction ts as [|t ts IH]; intros k d Hb.
-  - destruct k; exact Hb.
-  - destruct k as [|k]; [exact Hb|]. cbn [firstn fold_left]. apply IH. apply step_backed. exact Hb.
+  intros u s a Hc Ha x Hr. induction Hr as [x Hx | x y Hr IH Hy].
+  - destruct Hx as [Hx|[]]. subst. exact Ha.
+  - exact (Hc x y IH Hy).
+Qed.
+
+Lemma Inv_backed : forall u d, Inv u d -> ref_backed u d.
+Proof. intros u d [Hc Hp] n a Hin x Hr. exact (closed_reach u (r_store d) a Hc (Hp n a Hin) x Hr). Qed.
+
+Lemma transfer_inv : forall u ts d, Inv u d -> Inv u (transfer u d ts).
+Proof.
+  intros u. induction ts as [|t ts IH]; intros d H; [exact H|].
+  unfold transfer. cbn [fold_left]. apply IH. apply step_inv. exact H.
+Qed.
+
+(* ref_after_data: in every prefix of every interleaving of add-files and ref-update steps (= at every
+   interruption point of any number of concurrent transfers), the destination stays closed and every
+   destination ref is backed by its complete closure *)
+Theorem ref_after_data : forall u ts d,
+  sink_closed u (r_store d) -> refs_present d ->
+  forall k, ref_backed u (transfer u d (firstn k ts)) /\ sink_closed u (r_store (transfer u d (firstn k ts))).
+Proof.
+  intros u ts d Hc Hp k.
+  pose proof (transfer_inv u (firstn k ts) d (conj Hc Hp)) as H.
+  split; [apply Inv_backed; exact H | exact (proj1 H)].
 Qed.
 
 Lemma get_set_same : forall rm n a, get_ref (set_ref rm n a) n = Some a.
@@ -67,21 +152,44 @@ Proof.
   - destruct (k =? n) eqn:E; cbn [get_ref]; rewrite E; [reflexivity | apply IH].
 Qed.
 
-(* push_cas: two ref updates made against the same expected old head cannot both succeed,
-   unless the second one installs what is already there *)
+Lemma get_ref_In : forall rm n a, get_ref rm n = Some a -> In (n, a) rm.
+Proof.
+  induction rm as [|[k b] t IH]; intros n a H; cbn [get_ref] in H; [discriminate H|].
+  destruct (k =? n) eqn:E.
+  - apply N.eqb_eq in E. injection H as <-. subst. left. reflexivity.
+  - right. apply IH. exact H.
+Qed.
+
+(* a complete push (pruned pull, add, ref update) into a closed destination: if the ref moved, all the data
+   reachable from the new head is there — and if the old head was set, its history is still reachable *)
+Theorem push_complete : forall u d n new force,
+  sink_closed u (r_store d) -> refs_present d ->
+  let d' := push u d n new force in
+  ref_backed u d' /\
+  (get_ref (r_refs d') n = Some new -> forall x, reach u [new] x -> has (r_store d') x = true).
+Proof.
+  intros u d n new force Hc Hp d'. subst d'. unfold push.
+  destruct (pull_need u (r_store d) [new]) as [need|] eqn:En.
+  - pose proof (transfer_inv u [TAdd need; TSetRef n (get_ref (r_refs d) n) new force] d (conj Hc Hp)) as HI.
+    split; [apply Inv_backed; exact HI|].
+    intros Hg x Hr. apply get_ref_In in Hg. exact (Inv_backed _ _ HI n new Hg x Hr).
+  - split; [apply Inv_backed; split; assumption|].
+    intros Hg x Hr. apply get_ref_In in Hg. exact (Inv_backed _ _ (conj Hc Hp) n new Hg x Hr).
+Qed.
+
+(* push_cas: two ref updates made against the same expected old head cannot both succeed *)
 Theorem push_cas : forall u d n old new1 new2 f1 f2,
   succeeded u d (TSetRef n old new1 f1) = true ->
   old <> Some new1 ->
   succeeded u (tstep_run u d (TSetRef n old new1 f1)) (TSetRef n old new2 f2) = false.
 Proof.
   intros u d n old new1 new2 f1 f2 H1 Hne. cbn [succeeded] in H1. cbn [tstep_run]. rewrite H1.
-  cbn [succeeded r_refs]. rewrite get_set_same.
+  cbn [succeeded]. unfold set_ok. cbn [r_refs]. rewrite get_set_same.
   destruct old as [o|]; cbn [opt_eqb]; [|reflexivity].
   destruct (new1 =? o) eqn:E; [|reflexivity].
   apply N.eqb_eq in E. subst. exfalso. apply Hne. reflexivity.
 Qed.
 
-(* ff-only: a non-forced update that succeeds keeps every commit of the old head reachable from the new head *)
 Lemma reach_trans_single : forall u a b x, reach u [a] b -> reach u [b] x -> reach u [a] x.
 Proof.
   intros u a b x Hab Hbx. induction Hbx as [y Hy | y z Hy IH Hz].
@@ -89,24 +197,37 @@ Proof.
   - apply reach_step with (x := y); assumption.
 Qed.
 
+(* ff-only: a non-forced update that succeeds keeps every commit of the old head reachable from the new head *)
 Theorem ff_only_keeps_history : forall u d n old new o,
   succeeded u d (TSetRef n old new false) = true ->
   get_ref (r_refs d) n = Some o ->
   forall x, reach u [o] x -> reach u [new] x.
 Proof.
-  intros u d n old new o H Hg x Hx. cbn [succeeded orb] in H.
+  intros u d n old new o H Hg x Hx. cbn [succeeded] in H. unfold set_ok in H. cbn [orb] in H.
   apply andb_prop in H. destruct H as [_ Hff]. rewrite Hg in Hff. unfold is_ff in Hff.
   destruct (mark u [new]) as [r|] eqn:Em; [|discriminate Hff].
   apply memb_In in Hff. apply (mark_sound u [new] r Em) in Hff.
   eapply reach_trans_single; eassumption.
 Qed.
 
+(* the executable statement used on implementation states means what it says *)
+Lemma data_complete_spec : forall u s a,
+  data_complete u s a = true <-> (forall x, reach u [a] x -> has s x = true).
+Proof.
+  intros u s a. unfold data_complete. destruct (mark_is_reach u [a]) as [R [HR Hiff]]. rewrite HR.
+  rewrite forallb_forall. split.
+  - intros H x Hx. apply H. apply Hiff. exact Hx.
+  - intros H x Hx. apply H. apply Hiff. exact Hx.
+Qed.
+
 (* non-vacuity *)
 Example transfer_example :
-  let u := [(1, [2]); (2, []); (3, [1])] in
+  let u := [(1, [2]); (2, []); (3, [1]); (4, [5]); (5, [])] in
   let d0 := {| r_store := [1; 2]; r_refs := [(0, 1)] |} in
-  (r_refs (transfer u d0 [TSetRef 0 (Some 1) 3 false]),              (* data not there yet: refused *)
-   r_refs (transfer u d0 [TCopy [3]; TSetRef 0 (Some 1) 3 false]),   (* fast-forward after the data *)
-   r_refs (transfer u d0 [TCopy [3]; TSetRef 0 (Some 1) 3 false; TSetRef 0 (Some 1) 2 true]))  (* stale CAS *)
-  = ([(0, 1)], [(0, 3)], [(0, 3)]).
+  (r_refs (transfer u d0 [TSetRef 0 (Some 1) 3 false]),              (* head not there yet: refused *)
+   r_store (transfer u d0 [TAdd [4]]),                               (* file with a dangling reference: refused *)
+   r_refs (push u d0 0 3 false),                                     (* fast-forward push *)
+   r_store (push u d0 0 3 false),                                    (* fetched only the missing chunk *)
+   r_refs (transfer u (push u d0 0 3 false) [TAdd [5; 4]; TSetRef 0 (Some 1) 4 true]))  (* stale CAS *)
+  = ([(0, 1)], [1; 2], [(0, 3)], [3; 1; 2], [(0, 3)]).
 Proof. vm_compute. reflexivity. Qed.
